@@ -92,11 +92,11 @@ def _census(ctx, comp, rnd):
     ctx.extra.setdefault("random_scenarios_present", {})[comp] = sorted(have)
 
 
-def apalache(ctx, module, inv="IndInv", implied=()):
+def apalache(ctx, module, inv="IndInv", implied=(), inits=("Init",)):
     """Thorough tier: inductive invariant of the integer abstraction for unbounded histories and any capacity.
     `implied`: state predicates that must follow from the inductive invariant (IndInit => P)."""
-    obligations = [(["--init=Init", "--length=0"], "Init => IndInv", inv),
-                   (["--init=IndInit", "--length=1"], "IndInv /\\ Next => IndInv'", inv)]
+    obligations = [(["--init=" + i, "--length=0"], i + " => IndInv", inv) for i in inits]
+    obligations += [(["--init=IndInit", "--length=1"], "IndInv /\\ Next => IndInv'", inv)]
     obligations += [(["--init=IndInit", "--length=0"], "IndInv => " + p, p) for p in implied]
     for args, what, goal in obligations:
         out_dir = os.path.join(ctx.work, "apalache")
